@@ -734,7 +734,41 @@ def pred(ctx):
     fa = E.fa(p)
     S = Sym(E, fa)
     adds = calls_named(fa, "add")
-    ctx.floor("PRED", "counter.add call sites", len(adds), 2)
+    ctx.floor("PRED", "counter.add call sites", len(adds), 1)
+    # the right nodes: every ordinary node (the lists of `ends`) and EOS, in one loop
+    # (`ends.iter().flatten().chain(eos)`) or in two
+    covered = set()
+    for b, t in adds:
+        a0 = base_local(fa, t["args"][1])
+        if not a0:
+            continue
+        seen_l, work = set(), [{"c": {"l": a0[0], "p": []}}]
+        while work and len(seen_l) < 200:
+            pl = op_place(work.pop())
+            if pl is None:
+                continue
+            ap = E.ap_place(fa, pl)
+            if ap is not None and ap.root == ("arg", 1) and ap.proj[:1] == ("eos",):
+                covered.add("eos")
+            if ap is not None and ap.root == ("arg", 1) and ap.proj[:1] == ("ends",):
+                covered.add("ends")
+            if pl["l"] in seen_l:
+                continue
+            seen_l.add(pl["l"])
+            for d in fa.defs().get(pl["l"], []):
+                if d[2] == "call":
+                    work.extend(d[3]["args"])
+                elif d[2] == "assign":
+                    for key in ("op", "a", "b"):
+                        if isinstance(d[3].get(key), dict):
+                            work.append(d[3][key])
+                    if d[3]["k"] in ("ref", "discr"):
+                        work.append({"c": d[3]["place"]})
+                    work.extend(d[3].get("ops", []))
+    ctx.ob("PRED", "right-nodes-cover-ends-and-eos", covered == {"eos", "ends"}, fn_loc(crate, p),
+           "connections are counted for every node of the lattice and for EOS" if covered == {"eos", "ends"} else
+           "connections are counted for %s only: the connection %s is missing from the statistics"
+           % (sorted(covered), "to EOS" if "eos" not in covered else "between words"))
     for n, (b, t) in enumerate(adds):
         a = base_local(fa, t["args"][1])   # r.left_id
         bq = base_local(fa, t["args"][2])   # l.right_id
